@@ -1,9 +1,33 @@
 PLAN = dict(
     id="C20", pkg="c20", level="exploration", cli=True,
-    rule=("TODO"),
-    assumptions=TRUSTED,
-    technique="TODO",
-    level_text="TODO",
+    rule=("Every sub-check drives the repository's built binaries (directory in VERIF_CLI) on generated inputs in a scratch directory and decides from exit statuses and "
+          "produced files only (never from message wording; the Web Bundle ID is the only 56-character lower-case base32 word on stdout). "
+          "dir-bundle: a directory tree (depth <= 3, 1..8 files; names with space, '#', '?', '%41', bare '%', ':', sub-delims, non-ASCII, leading '-', index.html at any "
+          "level; empty, text, binary and > 64 KiB files), base URLs with/without trailing slash, path, port, versions b1 (+ -primaryURL / -manifestURL), b2 and the default: "
+          "gen-bundle exits 0, dump-bundle exits 0, bundle.Read yields exactly one exchange per regular file on the base's scheme/host, without query or fragment, whose "
+          "decoded path == base directory + relative path (== ResolveReference of a Path-only reference), status 200 and body == file bytes; index.html is served at its "
+          "directory's slash URL and its own URL is a 301 to './'; no other exchanges. sign-sections: such a bundle + gen-certurl chain + fixture key in SEC1 / PKCS#8 / "
+          "encrypted PKCS#8 form, -date/-expire with the present inside the window (flags omitted, numeric zones, exactly 168h), -miRecordSize 1..16384: sign-bundle "
+          "signatures-section exits 0, dump-bundle exits 0, bundle.Read + signature.NewVerifier(now) succeed, VerifyExchange returns the original body for every exchange on a "
+          "host the certificate covers and (nil,nil) otherwise. sign-integrity: sign-bundle integrity-block with an Ed25519 key (PKCS#8 / encrypted): exit 0, output == "
+          "deterministic-CBOR integrity block (one signature, signer's public key) | exact input bytes, Ed25519 signature verifies over the explainer's payload, printed ID == "
+          "base32(pub|000102) and dump-id -privateKey / -publicKey print the same ID. certurl: gen-certurl (-sctDir with 0..3 .sct files and decoys) exits 0, dump-certurl exits 0, "
+          "ReadCertChain returns the input DER in order, the OCSP bytes and the RFC 6962 list of the .sct files in lexical order. sxg: gen-signedexchange for 1b1/1b2/1b3 with "
+          "statuses, methods, request/response headers (multi-valued Cache-Control incl. the F8 shapes), record sizes, key forms, -o file / -o -: exit 0 is mandatory for plainly "
+          "conforming inputs; whenever it exits 0, dump-signedexchange -verify -cert exits 0 and ReadExchange + Verify(now) return the content file's bytes. har: gen-bundle -har "
+          "(GET / non-GET, pseudo and banned headers, base64 bodies, duplicate URLs with/without Variants, statuses out of range): exit 0 is mandatory for plain captures; "
+          "whenever it exits 0, dump-bundle exits 0, bundle.Read succeeds, every first GET entry is present with status and body, entries that must be dropped are absent. "
+          "Non-trivial: every executed pipeline whose first tool exited 0; distinct by fingerprint of the case. Switches: VERIF_C20_SKIP_F7=1 keeps '#', '?', '%', ':' out of "
+          "file names (class excluded-f7-names), VERIF_C20_SKIP_STDOUT_NOTICE=1 excludes 'gen-signedexchange -o -' with an encrypted key (class excluded-stdout-notice); "
+          "default: both are reported."),
+    assumptions=TRUSTED + ["the downstream library readers named by the property (bundle.Read, signature.NewVerifier/VerifyExchange, signedexchange.ReadExchange/Verify, "
+                           "certurl.ReadCertChain) are the acceptance judges next to the dump tools' exit statuses",
+                           "github.com/youmark/pkcs8 (a dependency of the repository) produces the encrypted PKCS#8 test keys",
+                           "the tools verify at time.Now(): cases carry offsets relative to the moment of execution with >= 2 minutes margin",
+                           "a directory named index.html, control characters and invalid UTF-8 in names, empty OCSP files are outside the explored domain"],
+    technique="rapid-generated and hand-written inputs piped through the built binaries; exit-status/file oracles with independent models of the expected bundle content, SCT list and integrity block",
+    level_text=("End-to-end exploration of the command-line tools on generated directory trees, HAR captures, key forms and flag values; two-sided where the documentation leaves no "
+                "reason to refuse, one-sided (no accepted-then-rejected artifact) elsewhere. Hand-written cases guarantee the mandatory shapes on every run."),
     level_note=NOTE_BASE,
     runs=[
         dict(name="dir", run="^(TestPropDirBundle|TestFixedDirBundle|TestCorpus)$", checks=(40, 400), shards=(1, 8), timeout=(300, 1800)),
@@ -13,5 +37,10 @@ PLAN = dict(
         dict(name="sxg", run="^(TestPropSxg|TestFixedSxg)$", checks=(40, 300), shards=(1, 8), timeout=(300, 1800)),
         dict(name="har", run="^(TestPropHar|TestFixedHar)$", checks=(40, 300), shards=(1, 8), timeout=(300, 1800)),
     ],
-    require=[],
+    require=[("dir-bundle", "name-with-space"), ("dir-bundle", "name-non-ascii"), ("dir-bundle", "index-html-nested"), ("dir-bundle", "index-html-root"),
+             ("dir-bundle", "empty-file"), ("dir-bundle", "v:b1"), ("dir-bundle", "v:b2"), ("dir-bundle", "base-no-trailing-slash"),
+             ("sign-sections", "pem-encrypted"), ("sign-sections", "pem-sec1"), ("sign-sections", "pem-pkcs8"), ("sign-sections", "v:b1"), ("sign-sections", "v:b2"),
+             ("sign-sections", "covered"), ("sign-sections", "not-covered"), ("sign-integrity", "pem-encrypted"), ("sign-integrity", "pem-pkcs8"),
+             ("certurl", "sct-3"), ("certurl", "no-sctdir"), ("sxg", "sxg:1b1"), ("sxg", "sxg:1b2"), ("sxg", "sxg:1b3"), ("sxg", "pem-encrypted"), ("sxg", "pem-sec1"),
+             ("sxg", "multi-cache-control"), ("sxg", "conforming"), ("sxg", "refused-nonconforming"), ("har", "non-get-entry"), ("har", "base64-body")],
 )
